@@ -2,13 +2,18 @@ import AsyncsshModel.Lemmas.ChannelReach
 import AsyncsshModel.Lemmas.ChannelMux
 import AsyncsshModel.Lemmas.ChannelCodec
 import AsyncsshModel.Lemmas.ChannelText
+import AsyncsshModel.Lemmas.ChannelDecode
+import AsyncsshModel.Lemmas.ChannelVariants
 import AsyncsshModel.Gen.C07
 /-
   C07 — Channel data arrives complete, in order, once, with EOF last.
 
   Model: `Model/Channel.lean` (one endpoint of `asyncssh/channel.py: SSHChannel`), `Model/ChannelSys.lean`
   (two endpoints + one FIFO link per direction, N channels multiplexed), `Model/ChannelCodec.lean` (UTF-8 layer),
-  `Model/ChannelText.lean` (encodings whose codec keeps state across writes: the byte order mark family).
+  `Model/ChannelDecode.lean` (the receive-side text layer of an endpoint: one decoder per data type, final decode at
+  EOF / CLOSE, reset by the application's `close()`), `Model/ChannelText.lean` (encodings whose codec keeps state
+  across writes: the byte order mark family), `Model/ChannelVariants.lean` (what `SSHServerChannel` and
+  `SSHTunTapChannel` add to the data path).
   All theorems quantify over EVERY event sequence the environment can choose (writes of any size and datatype,
   write_eof, close, pause/resume, pausing from inside `data_received`, delivery order of the two links) and every
   window / maximum packet size: `(Sys.init ca cb).run evs = .ok s` is "s is reachable".
@@ -224,10 +229,13 @@ theorem utf8_split_ok (st : St) (chunks : Buf) :
 theorem utf8_roundtrip (cps : List Nat) (h : ∀ cp ∈ cps, isScalar cp) : decode .s0 (encStr cps) = some (.s0, cps) :=
   decode_encStr cps h
 
-/-- **Characters, per datatype**: if the delivered chunks carry the same tagged byte stream as the strings the
+/-- **Characters through ONE decoder** (every data type of a channel before repair 7b04301; each single data type
+    since): if the delivered chunks carry the same tagged byte stream as the strings the
     peer wrote (what `stream_inv` gives once everything is delivered), the text handed to `data_received`, per
     datatype and in order, is exactly the text written — however the stream was cut — and the final
-    `decoder.decode(b'', True)` succeeds. -/
+    `decoder.decode(b'', True)` succeeds.  The hypothesis is an equation of TAGGED streams: it holds when no
+    character's bytes are spread over two data types, which a text sender guarantees and a bytes sender does not —
+    see `text_per_datatype_as_written` for the code as it is now. -/
 theorem text_delivered_is_text_written (writes : List (List Nat × DType))
     (hsc : ∀ w ∈ writes, ∀ cp ∈ w.1, isScalar cp) (delivered : Buf)
     (hst : tag delivered = tag (writes.map (fun w => (encStr w.1, w.2)))) :
@@ -235,10 +243,119 @@ theorem text_delivered_is_text_written (writes : List (List Nat × DType))
   rw [decodeChunks_tagged, hst]
   exact decodeTagged_writes writes hsc
 
+/-- **Characters, per data type** (the code since repair 7b04301: one decoder per data type).  If, for every data
+    type, the delivered chunks carry the BYTES of the strings written with that data type — nothing is assumed
+    about where packets are cut or how packets of different data types are interleaved, so also a sender which
+    relays bytes and switches from stdout to stderr in the middle of a character — then no decode raises, the text
+    handed to `data_received` with each data type is exactly the text written with it, and every decoder is back in
+    its initial state, so the final `decode(b'', True)` succeeds. -/
+theorem text_per_datatype_as_written (writes : List (List Nat × DType))
+    (hsc : ∀ w ∈ writes, ∀ cp ∈ w.1, isScalar cp) (delivered : Buf)
+    (hst : ∀ t, bytesOfType t delivered = bytesOfType t (writes.map (fun w => (encStr w.1, w.2)))) :
+    ∃ ds outs, decodeChunksPer [] delivered = some (ds, outs) ∧
+      (∀ t, textOf (outsOfType t outs) = cpsOfType t writes) ∧ decsFinalOk ds = true := by
+  obtain ⟨ds, outs, h1, h2, h3⟩ := text_per_datatype writes hsc delivered hst
+  exact ⟨ds, outs, h1, h2, h3.finalOk⟩
+
+/-- the same, end to end: in every reachable state of two endpoints in which everything the sender wrote has been
+    handed to the receiving session (nothing buffered, nothing in flight), if the bytes written per data type are
+    the encodings of the strings `writes`, the receiving text session got exactly those strings per data type -/
+theorem text_per_datatype_end_to_end (ca cb : SideCfg) (evs : List Event) (s : Sys)
+    (h : (Sys.init ca cb).run evs = .ok s) (x : Side) (hopen : (s.hist x.other).appClosed = false)
+    (hrb : (s.ep x.other).recvBuf = []) (hfl : dataOf (s.link x.other) = []) (hsb : (s.ep x).sendBuf = [])
+    (writes : List (List Nat × DType)) (hsc : ∀ w ∈ writes, ∀ cp ∈ w.1, isScalar cp)
+    (hw : ∀ t, bytesOfType t (s.hist x).wr = bytesOfType t (writes.map (fun w => (encStr w.1, w.2)))) :
+    ∃ ds outs, decodeChunksPer [] (dataOuts (s.hist x.other).dl) = some (ds, outs) ∧
+      (∀ t, textOf (outsOfType t outs) = cpsOfType t writes) ∧ decsFinalOk ds = true := by
+  apply text_per_datatype_as_written writes hsc
+  intro t
+  have := stream_inv_per_datatype ca cb evs s h x hopen t
+  rw [hrb, hfl, hsb] at this
+  simpa [bytesOfType, hw t] using this
+
+/-- **Witness for the code BEFORE repair 7b04301** (`Variant.preFix`: one decoder for all data types).  A sender
+    relaying bytes wrote "€\n" on stdout and "E" on stderr; the stdout bytes were cut after `E2 82` and the stderr
+    packet came in between.  Each data type is valid UTF-8, yet the shared decoder raises on the stderr packet
+    (→ `ProtocolError`, the whole connection is closed); one decoder per data type delivers both texts. -/
+theorem shared_decoder_breaks_split_character_preFix :
+    decodeChunksV .preFix [] [([0xE2, 0x82], none), ([0x45], some 1), ([0xAC, 0x0A], none)] = none ∧
+    (decodeChunksPer [] [([0xE2, 0x82], none), ([0x45], some 1), ([0xAC, 0x0A], none)]).map (·.2) =
+      some [([], none), ([0x45], some 1), ([0x20AC, 0x0A], none)] := by
+  decide +kernel
+
+/-- ... or, when the bytes of the other data type happen to continue the sequence, the shared decoder credits the
+    character to the wrong data type (a stdout character delivered on stderr) -/
+theorem shared_decoder_miscredits_character_preFix :
+    (decodeChunksV .preFix [] [([0xE2, 0x82], none), ([0xAC, 0xF0, 0x9F], some 1), ([0x98, 0x80], none)]).map (·.2) =
+      some [([], none), ([0x20AC], some 1), ([0x1F600], none)] := by
+  decide +kernel
+
+/-! ### text channels: the application closes in the middle of a character -/
+
+/-- **No decode error after the application's `close()`** (since repair 9fcdbb2, for ANY peer).  Whatever state a
+    text endpoint is in — a partial character pending in any decoder — once its application calls `close()` no
+    sequence of later events (DATA, EOF, CLOSE, WINDOW_ADJUST from the peer, further application calls) ends in a
+    decode error: later data is dropped undecoded, `_discard_recv` has reset the decoders, so the final
+    `decode(b'', True)` on the peer's EOF / CLOSE finds nothing pending.  An honest peer's EOF or CLOSE therefore
+    never costs the connection. -/
+theorem no_decode_error_after_local_close (tc : TChan) (hw : WF tc.c) (hr : tc.c.recvState ≠ .closed)
+    (evs : List Ev) : trunDecodeError tc (.close :: evs) = false := by
+  unfold trunDecodeError trunDecodeErrorV
+  rcases close_tstep tc hw hr with ⟨tc', ms, outs, hst, hq⟩ | ⟨e, hst⟩
+  · have hst' : tstepV .now tc .close = .ok tc' ms outs := hst
+    rw [hst']
+    exact quiet_run .now evs tc' hq
+  · exfalso
+    have hst' : tstepV .now tc .close = .error e := hst
+    unfold tstepV at hst'
+    obtain ⟨r, hr'⟩ : ∃ r, step tc.c .close = .ok r := by
+      simp only [step]
+      split
+      · rename_i hnone
+        split at hnone
+        · obtain ⟨r, hfs⟩ := flushSend_some
+            { tc.c with sendEofPending := decide (tc.c.sendState = .eofPending), sendState := .closePending }
+          rw [hfs] at hnone; cases hnone
+        · cases hnone
+      · split <;> exact ⟨_, rfl⟩
+    obtain ⟨c', ms, os⟩ := r
+    rw [hr'] at hst'
+    simp only at hst'
+    split at hst' <;> cases hst'
+
+/-- a text endpoint (client side: reads stdout and stderr) right after the channel was opened -/
+def textChan : TChan := { c := Chan.opened 100 [1] [] true 100 100 .no, ds := [] }
+
+/-- "€€" arrives cut as `E2 82 AC E2 | 82 AC`; the application closes after the first packet; the peer's second
+    packet and its EOF follow -/
+def closeMidCharRun : List Ev :=
+  [.recv (.data none [0xE2, 0x82, 0xAC, 0xE2]), .close, .recv (.data none [0x82, 0xAC]), .recv .eof]
+
+/-- **Witness for the code BEFORE repair 9fcdbb2** (`resetOnDiscard := false`): the honest peer's EOF after the
+    application's `close()` in the middle of a character is answered with a decode error — `ProtocolError`, the
+    connection and every other channel on it are gone -/
+theorem close_midchar_then_eof_fatal_preFix :
+    trunDecodeErrorV { perType := true, resetOnDiscard := false } textChan closeMidCharRun = true ∧
+    trunDecodeErrorV .preFix textChan closeMidCharRun = true := by
+  decide +kernel
+
+/-- the same run on the code as it is: "€" was delivered, the rest is discarded, the EOF is reported, no error -/
+theorem close_midchar_then_eof_ok :
+    trunDecodeError textChan closeMidCharRun = false ∧
+    trunOutsV .now textChan closeMidCharRun = [.text none [0x20AC], .eof] := by
+  decide +kernel
+
+/-- the model's variant is the code's: one decoder per data type, reset by `_discard_recv`, as the translator
+    finds them in `_deliver_data` / `_discard_recv` -/
+theorem model_variant_is_the_code :
+    Variant.now = { perType := Gen.C07.decoderPerDatatype, resetOnDiscard := Gen.C07.discardResetsDecoders } := by
+  decide
+
 /-! ### text channels: encodings whose codec keeps state across writes (utf-8-sig, utf-16, utf-32)
 
-  `SSHChannel.write` sends every string through ONE incremental encoder per channel, `_deliver_data` every packet
-  through ONE incremental decoder.  For `utf-8-sig`, `utf-16`, `utf-32` the encoder state is "mark already sent",
+  `SSHChannel.write` sends every string of a data type through ONE incremental encoder (per data type since repair
+  7b04301, so every data type is a stream of its own with its own mark), `_deliver_data` every packet of that data
+  type through ONE incremental decoder.  For `utf-8-sig`, `utf-16`, `utf-32` the encoder state is "mark already sent",
   the decoder state "mark already consumed" (plus the bytes of an incomplete character).  The body codecs UTF-8,
   UTF-16-LE, UTF-32-LE are modelled byte by byte (`Model/ChannelText.lean`); what is NOT modelled: big-endian
   streams (CPython's `utf-16` / `utf-32` decoders switch on a `FE FF` mark, its encoders never emit one on a
@@ -294,17 +411,56 @@ theorem per_write_encoding_delivers (t : ChannelText.TextCodec) (h : t ∈ Chann
   ChannelText.fresh_decodes t isScalar (ChannelText.markFamily_ok t h).1 (ChannelText.markFamily_ok t h).2.1
     (ChannelText.markFamily_ok t h).2.2 ChannelText.isScalar_mark ws hv x hx
 
-/-- **Tie to the code**: on a channel with an encoding, `write` encodes with `self._encoder.encode(data)` and
-    `_deliver_data` decodes with `self._decoder.decode(data)`; `set_encoding` creates both with
-    `codecs.getincrementalencoder / getincrementaldecoder (encoding)(errors)`; an empty write returns before the
-    encoder; these are the only uses of the two objects besides the final `decode(b'', True)` at EOF. -/
+/-- **Tie to the code**: on a channel with an encoding, `write` encodes with `encoder.encode(data)` and
+    `_deliver_data` decodes with `decoder.decode(data)`, where `encoder` / `decoder` is the object kept for the
+    data type in `self._encoders` / `self._decoders`, created on first use by
+    `codecs.getincrementalencoder / getincrementaldecoder (encoding)` applied to `errors`; `set_encoding` empties
+    both tables; an empty write returns before the encoder; `_discard_recv` resets every decoder and
+    `_flush_recv_buf` runs the final `decode(b'', True)` on every decoder; these are the only uses of the codec
+    objects. -/
 theorem text_codec_objects_in_code :
     Gen.C07.writeUsesChannelEncoder = true ∧ Gen.C07.encoderIsIncremental = true ∧
     Gen.C07.deliverUsesChannelDecoder = true ∧ Gen.C07.decoderIsIncremental = true ∧
     Gen.C07.emptyWriteSkipsEncoder = true ∧
-    Gen.C07.codecCallSites = ["_deliver_data: self._decoder.decode(data)",
-      "_flush_recv_buf: self._decoder.decode(b'', True)", "write: self._encoder.encode(cast(str, data))"] := by
+    Gen.C07.encoderPerDatatype = true ∧ Gen.C07.decoderPerDatatype = true ∧
+    Gen.C07.discardResetsDecoders = true ∧ Gen.C07.finalDecodeAllDecoders = true ∧
+    Gen.C07.codecCallSites = ["_deliver_data: decoder.decode(data)", "_discard_recv: decoder.reset()",
+      "_flush_recv_buf: decoder.decode(b'', True)", "write: encoder.encode(cast(str, data))"] := by
   decide
+
+/-! ### channel requests and tunnel channels -/
+
+/-- **Tie to the code** (repair b98700f): `SSHServerChannel._start_session` refuses a `shell` / `exec` /
+    `subsystem` request once one has succeeded, so the session is started once, by one request, and the data path
+    of the model — which has no event for such a request — is the code's.  (`_report_response` still answers a
+    successful request of these kinds with `session_started()` and `resume_reading()`: that is how the FIRST one
+    starts the session.) -/
+theorem second_session_request_refused :
+    Gen.C07.secondSessionRequestRefused = true ∧ Gen.C07.sessionRequestResumesReading = true := by decide
+
+/-- **Witness for the code BEFORE repair b98700f**: the application has paused reading, three bytes wait in the
+    receive buffer; the peer's second `shell` request hands them to the session (a freshly started second handler,
+    with the stream API: the first handler never sees them) and leaves reading resumed although the application
+    never called `resume_reading()` -/
+theorem second_session_request_delivered_behind_pause_preFix :
+    ∃ c', sessionRequestPreFix { Chan.opened 100 [] [1] true 100 100 .yes with recvBuf := [([1, 2, 3], none)] } =
+        .ok (c', [], [.data none [1, 2, 3]]) ∧ c'.recvPaused = .no := by
+  refine ⟨_, rfl, ?_⟩
+  decide +kernel
+
+/-- **Witness (NOT repaired, audit finding D5)**: a layer-3 tunnel packet is a datagram, but `SSHTunTapChannel.write`
+    appends header + packet as one entry of the byte-stream send buffer and `_flush_send_buf` cuts the entry where
+    the window ends.  Window 6, packet `01 02 03 04` behind the address family `00 00 00 02`: the first message
+    carries the header and two bytes, the continuation (sent after the WINDOW_ADJUST) the other two; the receiver
+    strips 4 bytes from EVERY message: the application gets `01 02` as a packet and the rest is lost. -/
+theorem tun_packet_cut_at_window_edge_loses_bytes :
+    ∃ c1 c2 r1,
+      tunWrite (Chan.opened 100 [] [] true 6 100 .no) [0, 0, 0, 2] [1, 2, 3, 4] =
+        .ok (c1, [.data none [0, 0, 0, 2, 1, 2]], []) ∧
+      step c1 (.recv (.adjust 100)) = .ok (c2, [.data none [3, 4]], []) ∧
+      tunRecvData (Chan.opened 100 [] [] true 100 100 .no) [0, 0, 0, 2, 1, 2] = .ok (r1, [], [.data none [1, 2]]) ∧
+      (∃ r2, tunRecvData r1 [3, 4] = .ok (r2, [], [])) := by
+  refine ⟨_, _, _, rfl, rfl, rfl, _, rfl⟩
 
 /-! ### tie to the code: the generated arithmetic -/
 
@@ -326,8 +482,15 @@ theorem stream_inv_example :
   refine ⟨_, rfl, ?_⟩
   decide +kernel
 
-theorem utf8_example : decodeChunks .s0 [([0xE2, 0x82], none), ([0xAC, 0xF0, 0x9F], some 1), ([0x98, 0x80], none)] =
-    some (.s0, [([], none), ([0x20AC], some 1), ([0x1F600], none)]) := by
+/-- one data type, a character cut across two packets and two characters in one packet -/
+theorem utf8_example : decodeChunks .s0 [([0xE2, 0x82], none), ([0xAC, 0xF0, 0x9F], none), ([0x98, 0x80], none)] =
+    some (.s0, [([], none), ([0x20AC], none), ([0x1F600], none)]) := by
+  decide +kernel
+
+/-- two data types interleaved in the middle of their characters: each gets its own text -/
+theorem utf8_per_datatype_example :
+    (decodeChunksPer [] [([0xE2, 0x82], none), ([0xF0, 0x9F], some 1), ([0xAC], none), ([0x98, 0x80], some 1)]).map (·.2) =
+      some [([], none), ([], some 1), ([0x20AC], none), ([0x1F600], some 1)] := by
   decide +kernel
 
 /-- utf-16, writes "a", "", "\u{1F600}" through one encoder, packets of 3, 1, 4 and 2 bytes: text as written -/
